@@ -317,6 +317,75 @@ func c20StringItem(t strTest, not bool, alpha []string, maxLen int) mc.Scenario 
 	}
 }
 
+// The same test on sibling values: two elements of a slice, two fields of a struct (both visit
+// orders). Each value must be classified on its own, whatever its sibling was.
+type c20Two struct {
+	A string
+	B string
+}
+
+func c20SiblingItem(t strTest, not bool, alpha []string) mc.Scenario {
+	return func(x *mc.X) *mc.Outcome {
+		zh.Reset()
+		zh.Install(x, zh.PoolLIFO, zh.OrderFree)
+		mode := x.Choose(2, "mode")
+		container := x.Choose(2, "container")
+		subj := []string{chooseString(x, alpha, 1, "sym1"), chooseString(x, alpha, 1, "sym2")}
+		name, code := t.name, t.code
+		if not {
+			name, code = "Not()."+name, "not_"+code
+		}
+		var issues z.ZogIssueMap
+		keys := []string{"[0]", "[1]"}
+		if container == 0 {
+			s := z.Slice(t.build(z.String(), not))
+			if mode == 0 {
+				var d []string
+				issues = s.Parse([]any{subj[0], subj[1]}, &d)
+			} else {
+				d := []string{subj[0], subj[1]}
+				issues = s.Validate(&d)
+			}
+		} else {
+			keys = []string{"a", "b"}
+			s := z.Struct(z.Schema{"a": t.build(z.String(), not), "b": t.build(z.String(), not)})
+			if mode == 0 {
+				var d c20Two
+				issues = s.Parse(map[string]any{"a": subj[0], "b": subj[1]}, &d)
+			} else {
+				d := c20Two{subj[0], subj[1]}
+				issues = s.Validate(&d)
+			}
+		}
+		zh.Reset()
+		out := &mc.Outcome{Traces: 1, Nontrivial: true}
+		var got, want []string
+		for i, k := range keys {
+			absent := parseAbsent(subj[i])
+			if mode == 1 {
+				absent = subj[i] == ""
+			}
+			holds := t.pred(subj[i])
+			if not {
+				holds = !holds
+			}
+			if !absent && !holds {
+				want = append(want, k+":"+code)
+			}
+			for _, is := range issues[k] {
+				got = append(got, k+":"+is.Code)
+			}
+		}
+		out.Sig = fmt.Sprintf("%s|%d|%d|%v", name, mode, container, want)
+		out.Sample = map[string]any{"test": name, "mode": []string{"Parse", "Validate"}[mode], "container": []string{"slice", "struct"}[container], "values": subj, "issues": got}
+		if !eqStrings(want, got) {
+			x.Note("%s on siblings %q in %s of a %s", name, subj, []string{"Parse", "Validate"}[mode], []string{"slice", "struct"}[container])
+			out.Viol = append(out.Viol, &mc.Violation{Key: fmt.Sprintf("C20:%s:siblings:%s", c20Base(name), []string{"Parse", "Validate"}[mode]), What: "a value is classified differently next to a sibling than on its own", Expected: fmt.Sprint(want), Observed: fmt.Sprint(got)})
+		}
+		return out
+	}
+}
+
 // numeric ---------------------------------------------------------------------
 
 func c20NumItem[T int | int32 | int64 | float32 | float64](mk func() *z.NumberSchema[T], vals []T, tname string) mc.Scenario {
@@ -863,6 +932,12 @@ func init() {
 				items = append(items, Item{Name: "str/" + t.name, Run: c20StringItem(t, false, c20Alphabet, maxLen), MaxDevs: -1})
 				if !t.noNot {
 					items = append(items, Item{Name: "str/Not." + t.name, Run: c20StringItem(t, true, c20Alphabet, maxLen), MaxDevs: -1})
+				}
+			}
+			for _, t := range c20StringTests() {
+				items = append(items, Item{Name: "siblings/" + t.name, Run: c20SiblingItem(t, false, c20Alphabet), MaxDevs: -1})
+				if !t.noNot {
+					items = append(items, Item{Name: "siblings/Not." + t.name, Run: c20SiblingItem(t, true, c20Alphabet), MaxDevs: -1})
 				}
 			}
 			emailAlpha := []string{"a", "1", "@", ".", "-", "+", "_"}
